@@ -10,6 +10,8 @@ REALS = ("ValueType is modelled by exact reals (type R): every 'equals its defin
          "the size and growth of IEEE rounding error is NOT decided by this check")
 
 UNITS = {
+    "ind_macd": dict(tpl="ind_macd.rs.tpl", doc="indicators::MACD (generic in the moving-average constructor)"),
+    "indicator_base": dict(tpl="indicator_base.rs.tpl", doc="Action (integer part), CrossAbove/CrossUnder/Cross over reals"),
     "indicator_set": dict(generator="gen_set_unit.py", doc="IndicatorConfig::set of all 36 shipped indicators; contracts generated from the public field lists"),
     "combinators": dict(tpl="combinators.rs.tpl", doc="Sequence::call, Method::over/new_over, WithHistory, WithLastValue, generic in M: Method"),
     "highest_lowest_index": dict(tpl="highest_lowest_index.rs.tpl", doc="methods::{HighestIndex, LowestIndex}"),
@@ -29,6 +31,11 @@ UNITS = {
 }
 
 KANI_GROUPS = {
+    "ohlcv": dict(
+        src="kani/ohlcv.rs", append_to="src/core/ohlcv.rs", module="core::ohlcv::verif_ohlcv",
+        harnesses=[dict(name=n, kind="complete", timeout=600, tier="quick") for n in
+                   ["vk_ohlcv_source_dispatch", "vk_ohlcv_clv_zero_range", "vk_ohlcv_validate"]]
+                  + [dict(name="vk_ohlcv_tr_close", kind="complete", timeout=3000, tier="thorough")]),
     "methods": dict(
         src="kani/methods.rs", append_to="src/methods/mod.rs", module="methods::verif_methods",
         harnesses=[
